@@ -86,6 +86,14 @@
     G O = A.inverse(); Eigen::Map<Eigen::Matrix<VSC(G), G::RepSize, 1>> OO(o); OO = O.coeffs(); }                  \
   extern "C" void P##_cast_same(const VSC(G) * a, VSC(G) * o)                                               \
   { smooth::Map<const G> A(a); smooth::Map<G> O(o); O = A.template cast<VSC(G)>(); }                        \
+  /* the result of cast<S>() on a view is a value of its own: assigning to it never writes the viewed buffer ... */ \
+  extern "C" void P##_cast_indep(VSC(G) * a, const VSC(G) * b, VSC(G) * o)                                  \
+  { smooth::Map<G> A(a); smooth::Map<const G> B(b); auto y = A.template cast<VSC(G)>(); y = B;             \
+    smooth::Map<G> O(o); O = y; }                                                                           \
+  /* ... and it keeps the converted coefficients when the viewed buffer is overwritten afterwards */        \
+  extern "C" void P##_cast_snapshot(VSC(G) * a, const VSC(G) * b, VSC(G) * o)                               \
+  { smooth::Map<const G> A(a); const auto y = A.template cast<VSC(G)>(); smooth::Map<G> W(a);               \
+    W = smooth::Map<const G>(b); smooth::Map<G> O(o); O = y; }                                              \
   extern "C" void P##_dr_rminus(const VSC(G) * t, VSC(G) * m)                                               \
   { VTAN(G) T = Eigen::Map<const VTAN(G)>(t); Eigen::Map<VTMAP(G)> M(m); M = smooth::dr_rminus<G>(T); }     \
   extern "C" void P##_dr_rminus_sq(const VSC(G) * t, VSC(G) * m)                                            \
